@@ -540,7 +540,7 @@ func c16Run(t *rapid.T, st *Stats) {
 			mc.checkAll(t)
 		case "register-bad-shape":
 			name := rapid.SampledFrom(c16DynNames).Draw(t, "name")
-			shape := rapid.SampledFrom([]string{"no-profile-field", "no-json-tag", "lookalike-keys", "profile-cbor-dash", "profile-cbor-empty-key"}).Draw(t, "shape")
+			shape := rapid.SampledFrom([]string{"no-profile-field", "no-json-tag", "lookalike-keys", "lookalike-names", "profile-cbor-dash", "profile-cbor-empty-key"}).Draw(t, "shape")
 			mc.log("Register(%s as %s)", name[len(name)-5:], shape)
 			if err, pmsg := c16Register(c16Profile(name, shape, rapid.IntRange(0, 3).Draw(t, "profile.kind"))); pmsg != "" {
 				mc.fail(t, "registering a profile whose claims type has no identifiable profile field (%s) PANICS: %s", shape, pmsg)
@@ -657,5 +657,26 @@ func TestC16_RegistryHistories(t *testing.T) {
 	defer st.Flush(t)
 	registerMu.Lock()
 	defer registerMu.Unlock()
+	// deterministic prelude: every claims type without an identifiable profile
+	// field, under a new and under an existing name, through every kind of
+	// IProfile value: refused, and nothing can be looked up afterwards
+	func() {
+		restore := psatoken.VerifCheckpointProfiles()
+		defer restore()
+		for _, shape := range []string{"no-profile-field", "no-json-tag", "lookalike-keys", "lookalike-names", "profile-cbor-dash", "profile-cbor-empty-key"} {
+			for kind := 0; kind < 4; kind++ {
+				for _, name := range []string{c16DynNames[0], P2Name} {
+					err, pmsg := c16Register(c16Profile(name, shape, kind))
+					if pmsg != "" || err == nil {
+						t.Fatalf("C16 violated: registering a profile whose claims type has no identifiable profile field (%s) under %q: err=%v panic=%q", shape, name, err, pmsg)
+					}
+				}
+				if c, err := psatoken.NewClaims(c16DynNames[0]); err == nil {
+					t.Fatalf("C16 violated: after the refused registration of a %s claims type NewClaims(%q) returns %T", shape, c16DynNames[0], c)
+				}
+				st.Case("prelude|"+shape+"|"+fmt.Sprint(kind), "failed-registration")
+			}
+		}
+	}()
 	rapid.Check(t, func(t *rapid.T) { c16Run(t, st) })
 }
